@@ -348,6 +348,8 @@ def x_schedule(ctx, case):
     detail = lambda: {"schedule": [k for n, k, c in sch.choices][:80], "fault": fault,  # noqa: E731
                       "trace-tail": sch.trace[-12:]}
     check_log(ctx, workload, sch, log, sem, errors, exc, threads, fault, detail)
+    if not hasattr(ctx, "interleavings"):
+        ctx.interleavings = set()
     ctx.interleavings.add(hash(tuple(sch.trace)))
     x_schedule.last = sch
     return True
